@@ -10,8 +10,13 @@ open TFVerif.C05
 #print axioms mnt_chain_refines
 #print axioms mnt_getitem_tuple
 #print axioms mnt_getitem_cell
+#print axioms mnt_wellformed_iff_canonical
+#print axioms mnt_select_refines_wf
+#print axioms mnt_chain_refines_wf
 #print axioms met_select_refines
 #print axioms met_result_wellformed
 #print axioms met_chain_refines
 #print axioms met_select_grid
 #print axioms met_getitem_cell
+#print axioms met_wellformed_canonical
+#print axioms met_select_refines_wf
